@@ -65,7 +65,7 @@ def main():
     hooks = subprocess.run(["git", "-C", "/repo", "log", "--format=%h", "--grep=^verif"], stdout=subprocess.PIPE, text=True).stdout.split()
     m = {
         "version": 1,
-        "setup_cmd": "./check --setup",
+        "setup_cmd": "./check --setup && ./harness/bin/vh -prop C19-prebuild -verif /verif",
         "hooks": {
             "guard": "verif",
             "enable": "go build -tags verif (harness module /verif/harness with `replace github.com/cedar-policy/cedar-go => /repo`)",
